@@ -9,7 +9,7 @@
 (* slot subset and output gap, every extraction index) crossed with a lighter shape set.        *)
 (* Enabling conditions = the library's own assertions (size_key > dsize, dnum*dsize <= size_key,*)
 (* in-place needs equal ranks) and the integer range of the validating model (<= 24 bits).      *)
-EXTENDS Integers, Sequences, FiniteSets, TLC, Json, IOUtils, SequencesExt
+EXTENDS Integers, Sequences, FiniteSets, TLC, Json
 
 CONSTANTS Bs, MaxSIn, MaxSKey, MaxDsize, Ranks, PCs, BoundIdx, MaxKeyBits, NFam, FamSIn
 
@@ -20,55 +20,65 @@ D(op, bin, bkey, bout, sin, skey, sout, rin, rout, dnum, dsize, pc, nz) ==
 
 KeyShapes == { <<skey, dnum, dsize>> \in (2..MaxSKey) \X (1..MaxSKey) \X (1..MaxDsize) : skey > dsize /\ dnum * dsize <= skey }
 
-Out == UNION { UNION { { D("keyswitch", bin, bkey, bout, sin, ks[1], sout, rin, rout, ks[2], ks[3], pc, nz) :
-                           bin \in Bs, bout \in Bs, sin \in 1..MaxSIn, sout \in ({ks[1] - 1, ks[1], ks[1] + 1} \cap (1..(MaxSKey + 1))),
-                           rin \in Ranks, rout \in Ranks, pc \in PCs, nz \in BoundIdx }
-                       : ks \in {k \in KeyShapes : k[1] * bkey <= MaxKeyBits} }
-               : bkey \in Bs }
-\* in place: the result is the input itself (same radix, size, rank)
-InPlace == UNION { { D("keyswitch_assign", bin, bkey, bin, sin, ks[1], sin, r, r, ks[2], ks[3], pc, nz) :
-                       bin \in Bs, sin \in 1..MaxSIn, r \in Ranks, ks \in {k \in KeyShapes : k[1] * bkey <= MaxKeyBits}, pc \in PCs, nz \in BoundIdx }
-                   : bkey \in Bs }
-
-\* ---- the rest of the family on a lighter shape set: keys of 18..24 bits, inputs of FamSIn limbs
+\* ---- one TLC state per descriptor (printed by the invariant Emit): the families are quantified, never built as sets
+\* (TLC's set-of-records construction is quadratic)
 FamKeys(bkey) == { k \in KeyShapes : k[1] * bkey >= 18 /\ k[1] * bkey <= MaxKeyBits /\ (k[2] * k[3] = k[1] \/ k[2] * k[3] = k[1] - 2) }
+KsKeys(bkey) == { k \in KeyShapes : k[1] * bkey <= MaxKeyBits }
 Shape(bin, bkey, bout, sin, sout, r, ks) == D("", bin, bkey, bout, sin, ks[1], sout, r, r, ks[2], ks[3], 1, 1)
-Shapes == UNION { UNION { { Shape(bin, bkey, bout, sin, sin + ds, r, ks) : bin \in Bs, bout \in Bs, ds \in {0, 1}, r \in Ranks, ks \in FamKeys(bkey) } : bkey \in Bs } : sin \in FamSIn }
-SameShapes == { s \in Shapes : s.bin = s.bout /\ s.sin = s.sout }          \* in-place forms
 With(s, f) == [x \in DOMAIN s \cup DOMAIN f |-> IF x \in DOMAIN f THEN f[x] ELSE s[x]]
 Galois == { p \in (1 - 2 * NFam)..(2 * NFam - 1) : p % 2 = 1 }
 Log2N == CHOOSE l \in 0..12 : 2 ^ l = NFam
-AutoOut == { With(s, [op |-> o, p |-> p, n |-> NFam]) : s \in Shapes, o \in {"auto", "auto_add", "auto_sub", "auto_sub_negate"}, p \in Galois }
-AutoIn == { With(s, [op |-> o, p |-> p, n |-> NFam]) : s \in SameShapes, o \in {"auto_assign", "auto_add_assign", "auto_sub_assign", "auto_sub_negate_assign"}, p \in Galois }
-TraceOut == { With(s, [op |-> "trace", skip |-> k, n |-> NFam]) : s \in Shapes, k \in 0..Log2N }
-TraceIn == { With(s, [op |-> "trace_assign", skip |-> k, n |-> NFam]) : s \in SameShapes, k \in 0..Log2N }
-\* packing: any non-empty set of inputs at multiples of 2^gap (other indices are not admitted: they would be dropped)
 Mult(g) == { j \in 0..(NFam - 1) : j % (2 ^ g) = 0 }
-PackShapes == UNION { { Shape(bin, bkey, bout, 5, 5, 1, ks) : bin \in Bs, bout \in Bs, ks \in FamKeys(bkey) } : bkey \in Bs }
-Pack == UNION { { With(s, [op |-> "pack", gap |-> g, slots |-> SetToSeq(S), n |-> NFam]) : s \in PackShapes, S \in (SUBSET Mult(g)) \ {{}} } : g \in 0..Log2N }
-\* streaming packer: every log_batch, presence patterns (all / none / alternating / first half / one / all but one), a second
-\* round on the same packer (stale accumulators must not leak, also when the second round has no input at all)
+LweDims == {1, 3, NFam}
 Pat(kind, cnt) == [j \in 1..cnt |-> CASE kind = "all" -> 1 [] kind = "none" -> 0 [] kind = "alt" -> (j % 2) [] kind = "half" -> (IF 2 * j <= cnt THEN 1 ELSE 0)
                                        [] kind = "one" -> (IF j = cnt THEN 1 ELSE 0) [] OTHER -> (IF j = 2 THEN 0 ELSE 1)]
-Packer == UNION { { With(s, [op |-> "packer", log_batch |-> lb, rounds |-> << Pat(k1, NFam \div (2 ^ lb)), Pat(k2, NFam \div (2 ^ lb)) >>, n |-> NFam]) :
-                      s \in PackShapes, k1 \in {"all", "alt", "half", "one", "butone"}, k2 \in {"all", "none", "alt"} } : lb \in 0..(Log2N - 1) }
-LweDims == {1, 3, NFam}
-Rank1 == { s \in Shapes : s.rin = 1 }
-LweKs == { With(s, [op |-> "lwe_keyswitch", nlwe |-> a, nlwe2 |-> b, n |-> NFam]) : s \in {x \in Rank1 : x.dsize = 1}, a \in LweDims, b \in LweDims }
-FromGlwe == { With(s, [op |-> "lwe_from_glwe", nlwe |-> a, aidx |-> i, rout |-> 1, n |-> NFam]) : s \in {x \in Shapes : x.dsize = 1}, a \in LweDims, i \in 0..(NFam - 1) }
-FromLwe == { With(s, [op |-> "glwe_from_lwe", nlwe |-> a, n |-> NFam]) : s \in {x \in Shapes : x.dsize = 1}, a \in LweDims }
-Extract == { With(s, [op |-> "sample_extract", nlwe |-> a, n |-> NFam]) : s \in {x \in Rank1 : x.bkey = x.bin /\ x.bout = x.bin}, a \in 1..NFam }
+RECURSIVE SetSeq(_)
+SetSeq(S) == IF S = {} THEN <<>> ELSE LET x == CHOOSE y \in S : \A z \in S : y <= z IN <<x>> \o SetSeq(S \ {x})
 
-\* GGLWE key-switch: a GGLWE of dnum_a rows (digit size 1, ra input columns) under the source key
-GglweKs == { With(s, [op |-> "gglwe_ks", rout |-> ro, ra |-> ra, dnum_a |-> da, dnum_r |-> dr, n |-> NFam]) :
-               s \in {x \in Shapes : x.bin = x.bout}, ro \in Ranks, ra \in {1, 2}, da \in {2, 3}, dr \in {1, 2, 3} }
-GglweKsOK == { d \in GglweKs : d.dnum_r <= d.dnum_a }
-GglweKsIn == { With(s, [op |-> "gglwe_ks_assign", ra |-> ra, dnum_a |-> da, dnum_r |-> da, n |-> NFam]) : s \in SameShapes, ra \in {1, 2}, da \in {2, 3} }
-Descs == Packer \cup GglweKsOK \cup GglweKsIn \cup Out \cup InPlace \cup AutoOut \cup AutoIn \cup TraceOut \cup TraceIn \cup Pack \cup LweKs \cup FromGlwe \cup FromLwe \cup Extract
-
-ASSUME ndJsonSerialize(IOEnv.OUT, SetToSeq(Descs))
-ASSUME PrintT(<<"GENERATED", Cardinality(Descs)>>)
 VARIABLE c
-Init == c = 0
-Next == UNCHANGED c
+Init == c = [op |-> "none"]
+\* (the shape is chosen first, the operation parameters are then added to it)
+ShapeSet(same) == { sh \in [bin : Bs, bkey : Bs, bout : Bs, sin : FamSIn, ds : {0, 1}, r : Ranks] : same => (sh.bin = sh.bout /\ sh.ds = 0) }
+ShapeOf(sh, ks) == Shape(sh.bin, sh.bkey, sh.bout, sh.sin, sh.sin + sh.ds, sh.r, ks)
+Next ==
+  /\ c.op = "none"
+  /\ \/ \* plain key-switch: every gadget shape
+        \E bin \in Bs, bkey \in Bs, bout \in Bs, sin \in 1..MaxSIn, rin \in Ranks, rout \in Ranks, pc \in PCs, nz \in BoundIdx : \E ks \in KsKeys(bkey) :
+          \E sout \in ({ks[1] - 1, ks[1], ks[1] + 1} \cap (1..(MaxSKey + 1))) :
+            c' = D("keyswitch", bin, bkey, bout, sin, ks[1], sout, rin, rout, ks[2], ks[3], pc, nz)
+     \/ \E bin \in Bs, bkey \in Bs, sin \in 1..MaxSIn, r \in Ranks, pc \in PCs, nz \in BoundIdx : \E ks \in KsKeys(bkey) :
+            c' = D("keyswitch_assign", bin, bkey, bin, sin, ks[1], sin, r, r, ks[2], ks[3], pc, nz)
+     \/ \* automorphisms and their add / sub variants: every Galois element in both signs
+        \E sh \in ShapeSet(FALSE), o \in {"auto", "auto_add", "auto_sub", "auto_sub_negate"}, p \in Galois : \E ks \in FamKeys(sh.bkey) :
+            c' = With(ShapeOf(sh, ks), [op |-> o, p |-> p, n |-> NFam])
+     \/ \E sh \in ShapeSet(TRUE), o \in {"auto_assign", "auto_add_assign", "auto_sub_assign", "auto_sub_negate_assign"}, p \in Galois : \E ks \in FamKeys(sh.bkey) :
+            c' = With(ShapeOf(sh, ks), [op |-> o, p |-> p, n |-> NFam])
+     \/ \E sh \in ShapeSet(FALSE), k \in 0..Log2N : \E ks \in FamKeys(sh.bkey) : c' = With(ShapeOf(sh, ks), [op |-> "trace", skip |-> k, n |-> NFam])
+     \/ \E sh \in ShapeSet(TRUE), k \in 0..Log2N : \E ks \in FamKeys(sh.bkey) : c' = With(ShapeOf(sh, ks), [op |-> "trace_assign", skip |-> k, n |-> NFam])
+     \/ \* packing: any non-empty set of inputs at multiples of 2^gap; 5-limb inputs, rank 1
+        \E bin \in Bs, bkey \in Bs, bout \in Bs, g \in 0..Log2N : \E ks \in FamKeys(bkey) : \E S \in (SUBSET Mult(g)) \ {{}} :
+            c' = With(Shape(bin, bkey, bout, 5, 5, 1, ks), [op |-> "pack", gap |-> g, slots |-> SetSeq(S), n |-> NFam])
+     \/ \* streaming packer: every log_batch, presence patterns, a second round on the same packer
+        \E bin \in Bs, bkey \in Bs, bout \in Bs, lb \in 0..(Log2N - 1), k1 \in {"all", "alt", "half", "one", "butone"}, k2 \in {"all", "none", "alt"} : \E ks \in FamKeys(bkey) :
+            c' = With(Shape(bin, bkey, bout, 5, 5, 1, ks), [op |-> "packer", log_batch |-> lb, rounds |-> << Pat(k1, NFam \div (2 ^ lb)), Pat(k2, NFam \div (2 ^ lb)) >>, n |-> NFam])
+     \/ \* LWE key-switch and conversions, sample extraction
+        \E sh \in ShapeSet(FALSE), a \in LweDims, b \in LweDims : \E ks \in FamKeys(sh.bkey) :
+            /\ sh.r = 1 /\ ks[3] = 1
+            /\ c' = With(ShapeOf(sh, ks), [op |-> "lwe_keyswitch", nlwe |-> a, nlwe2 |-> b, n |-> NFam])
+     \/ \E sh \in ShapeSet(FALSE), a \in LweDims, i \in 0..(NFam - 1) : \E ks \in FamKeys(sh.bkey) :
+            /\ ks[3] = 1
+            /\ c' = With(ShapeOf(sh, ks), [op |-> "lwe_from_glwe", nlwe |-> a, aidx |-> i, rout |-> 1, n |-> NFam])
+     \/ \E sh \in ShapeSet(FALSE), a \in LweDims : \E ks \in FamKeys(sh.bkey) :
+            /\ ks[3] = 1
+            /\ c' = With(ShapeOf(sh, ks), [op |-> "glwe_from_lwe", nlwe |-> a, n |-> NFam])
+     \/ \E sh \in ShapeSet(FALSE), a \in 1..NFam : \E ks \in FamKeys(sh.bkey) :
+            /\ sh.r = 1 /\ sh.bkey = sh.bin /\ sh.bout = sh.bin
+            /\ c' = With(ShapeOf(sh, ks), [op |-> "sample_extract", nlwe |-> a, n |-> NFam])
+     \/ \* GGLWE key-switch: a GGLWE of dnum_a rows (digit size 1, ra input columns) under the source key
+        \E sh \in ShapeSet(FALSE), ro \in Ranks, ra \in {1, 2}, da \in {2, 3}, dr \in {1, 2, 3} : \E ks \in FamKeys(sh.bkey) :
+            /\ sh.bin = sh.bout /\ dr <= da
+            /\ c' = With(ShapeOf(sh, ks), [op |-> "gglwe_ks", rout |-> ro, ra |-> ra, dnum_a |-> da, dnum_r |-> dr, n |-> NFam])
+     \/ \E sh \in ShapeSet(TRUE), ra \in {1, 2}, da \in {2, 3} : \E ks \in FamKeys(sh.bkey) :
+            c' = With(ShapeOf(sh, ks), [op |-> "gglwe_ks_assign", ra |-> ra, dnum_a |-> da, dnum_r |-> da, n |-> NFam])
+Emit == c.op # "none" => PrintT(<<"DESC", ToJson(c)>>)
 =============================================================================
